@@ -57,6 +57,19 @@ fn check(c: &Case, obs: &mut Obs) {
     if p.last() != Some(&(x1, y1)) {
         obs.fail("points-end-at-end", format!("last point {:?}", p.last()));
     }
+    // the same line described by start and delta
+    if dx.abs() < 1 << 30 && dy.abs() < 1 << 30 {
+        let wd = Line::with_delta(Point::new(c.a.0, c.a.1), Point::new(dx as i32, dy as i32));
+        let mut it = wd.points();
+        let first = it.next().map(|q| (q.x as i64, q.y as i64));
+        let last = it.take(100_000).last().map(|q| (q.x as i64, q.y as i64)).or(first);
+        if first != Some((x0, y0)) {
+            obs.fail("points-start-at-start", format!("line described by start and delta: first point {:?}", first));
+        }
+        if last != Some((x1, y1)) {
+            obs.fail("points-end-at-end", format!("line described by start and delta: last point {:?}", last));
+        }
+    }
     if p.len() as i64 != major + 1 {
         obs.fail("points-count", format!("{} points, max(|dx|,|dy|)+1 = {}", p.len(), major + 1));
     }
